@@ -192,6 +192,22 @@ def run_case(case):
         d, exc = call("dump", dump, tce_ok=True)
         if exc is None and d is not None:
             events.append(B.ev("Finish", call="dump", none=True))
+        if hasattr(tag, "request_service"):
+            # the enumeration interface of FeliCa Standard / Mobile on its own (each documents TagCommandError only)
+            def enumerate_card():
+                import nfc.tag.tt3 as tt3
+                codes = [tt3.ServiceCode(0, 0x0B), tt3.ServiceCode(1, 0x09), tt3.ServiceCode(16, 0x17), tt3.ServiceCode(33, 0x0C)]
+                out = []
+                for fn in (tag.request_system_code, lambda: tag.request_service(codes), tag.request_response,
+                           lambda: tag.search_service_code(0), lambda: tag.search_service_code(0xFFFF)):
+                    try:
+                        out.append(fn())
+                    except nfc.tag.TagCommandError:
+                        out.append(None)
+                return out
+            e, exc = call("enumerate", enumerate_card)
+            if exc is None:
+                events.append(B.ev("Finish", call="enumerate", none=True))
         if hasattr(type(tag), "signature"):
             s, exc = call("signature", lambda: tag.signature)
             if exc is None:
@@ -328,10 +344,11 @@ def fstd_variants(rnd):
     reqsys = [["trunc", 1], ["trunc", 2], ["extend", [0x12]], ["raw", []], ["raw", [0]], ["raw", [1]], ["raw", [2, 0x12, 0xFC]],
               ["raw", [255] + rl(rnd, 6)], ["idm", rl(rnd, 8)], "none", None, None]
     reqrsp = [["trunc", 1], ["extend", [0]], ["raw", [7]], ["raw", []], "none", None]
+    reqsvc = [["trunc", 1], ["trunc", 2], ["extend", [0]], ["extend", rl(rnd, 2)], ["raw", []], ["raw", [4]], ["raw", [9] + rl(rnd, 8)], "none", None]
     poll = [["trunc", 1], ["trunc", 2], ["trunc", 8], ["extend", rl(rnd, 2)], ["idm", rl(rnd, 8)], ["raw", []], "none", None, None, None]
     read = [["trunc", 1], ["trunc", 16], ["trunc", 17], ["extend", rl(rnd, 16)], ["raw", [0, 0]], ["raw", [0, 0, 1]],
             ["raw", [1, 0xA8]], ["idm", rl(rnd, 8)], "none", None, None, None, None]
-    return {"SEARCH": some(search, rnd.choice([1, 4, 12])), "REQSYS": some(reqsys, 1), "REQRSP": some(reqrsp, 2),
+    return {"SEARCH": some(search, rnd.choice([1, 4, 12])), "REQSYS": some(reqsys, 2), "REQRSP": some(reqrsp, 2), "REQSVC": some(reqsvc, 1),
             "POLL": some(poll, 3), "READ": some(read, rnd.choice([1, 5]))}
 
 
@@ -480,6 +497,8 @@ def classify(tr, info, line, act, why):
     w = why[0] if why else "?"
     if call in ("ndef", "changed"):
         call = "read"
+    if call == "enumerate" and e.get("site", "").split(".")[-1] in ("request_system_code", "search_service_code"):
+        call = "dump"                              # the same function dump() goes through: one defect, one key
     if w == "exception":
         return "exception:%s:%s:%s@%s" % (fam, call, e["exc"], e["site"])
     if w == "result":
